@@ -27,6 +27,8 @@ fn decode_codec(codec: &str, b: &[u8]) -> String {
         "pubkey" => match ElGamalPubkey::try_from(b) {
             Ok(p) => {
                 let out = p.to_bytes();
+                // every other way of getting the bytes out must agree
+                if <[u8; 32]>::from(&p) != out || <[u8; 32]>::from(p) != out { return "variant-mismatch".into() }
                 // Pod <-> typed agreement
                 if let Some(a) = arr::<32>(b) {
                     let pod = PodElGamalPubkey::from(a);
@@ -48,6 +50,10 @@ fn decode_codec(codec: &str, b: &[u8]) -> String {
         },
         "cmt" => match PedersenCommitment::from_bytes(b) {
             Some(p) => {
+                if let Some(a) = arr::<32>(b) {
+                    let c: curve25519_dalek::ristretto::CompressedRistretto = PodPedersenCommitment::from(a).into();
+                    if c.as_bytes() != &a || p.get_point().compress() != c { return "variant-mismatch".into() }
+                }
                 let out = p.to_bytes();
                 if let Some(a) = arr::<32>(b) {
                     match PedersenCommitment::try_from(PodPedersenCommitment::from(a)) {
@@ -68,6 +74,10 @@ fn decode_codec(codec: &str, b: &[u8]) -> String {
         },
         "handle" => match DecryptHandle::from_bytes(b) {
             Some(p) => {
+                if let Some(a) = arr::<32>(b) {
+                    let c: curve25519_dalek::ristretto::CompressedRistretto = PodDecryptHandle::from(a).into();
+                    if c.as_bytes() != &a || p.get_point().compress() != c { return "variant-mismatch".into() }
+                }
                 let out = p.to_bytes();
                 if let Some(a) = arr::<32>(b) {
                     match DecryptHandle::try_from(PodDecryptHandle::from(a)) {
@@ -80,7 +90,11 @@ fn decode_codec(codec: &str, b: &[u8]) -> String {
             None => "err".into(),
         },
         "secret" => match ElGamalSecretKey::try_from(b) {
-            Ok(s) => okhex(s.as_bytes()),
+            Ok(s) => {
+                let out = *s.as_bytes();
+                if <[u8; 32]>::from(&s) != out || s.get_scalar().to_bytes() != out || <[u8; 32]>::from(s.clone()) != out { return "variant-mismatch".into() }
+                okhex(&out)
+            }
             Err(_) => "err".into(),
         },
         "opening" => match PedersenOpening::from_bytes(b) {
@@ -88,7 +102,15 @@ fn decode_codec(codec: &str, b: &[u8]) -> String {
             None => "err".into(),
         },
         "keypair" => match ElGamalKeypair::try_from(b) {
-            Ok(k) => okhex(&<[u8; 64]>::from(&k)),
+            Ok(k) => {
+                let out = <[u8; 64]>::from(&k);
+                use solana_signer::EncodableKeypair;
+                let mut alt = k.pubkey().to_bytes().to_vec();
+                alt.extend(k.secret().as_bytes());
+                if alt != out || k.pubkey_owned().to_bytes() != out[..32] || k.encodable_pubkey().to_bytes() != out[..32]
+                    || <[u8; 64]>::from(k.clone()) != out { return "variant-mismatch".into() }
+                okhex(&out)
+            }
             Err(_) => "err".into(),
         },
         "ct" => match ElGamalCiphertext::from_bytes(b) {
@@ -272,8 +294,20 @@ pub fn op_tostr(a: &[&str]) -> String {
         }};
     }
     match *codec {
-        "pubkey" => ts!(PodElGamalPubkey, 32),
-        "ct" => ts!(PodElGamalCiphertext, 64),
+        "pubkey" => {
+            let pod = ts!(PodElGamalPubkey, 32);
+            if let Ok(k) = ElGamalPubkey::try_from(b.as_slice()) {
+                if hex(format!("{}", k).as_bytes()) != pod { return format!("variant-mismatch:{}", pod) }
+            }
+            pod
+        }
+        "ct" => {
+            let pod = ts!(PodElGamalCiphertext, 64);
+            if let Some(c) = ElGamalCiphertext::from_bytes(&b) {
+                if hex(format!("{}", c).as_bytes()) != pod { return format!("variant-mismatch:{}", pod) }
+            }
+            pod
+        }
         "handle" => ts!(PodDecryptHandle, 32),
         "cmt" => ts!(PodPedersenCommitment, 32),
         "gct2" => ts!(PodGroupedElGamalCiphertext2Handles, 96),
